@@ -12,6 +12,10 @@
 // check.py's numeric comparison of float tokens cannot tell -0 from +0.
 // Section FORMS: 135 COMPILED C++ expressions whose intermediates are genuine temporaries (CORR tag `form`), compared bit for
 // bit with the step-by-step evaluation through named arrays and consumed in every prvalue idiom (lifetime / ownership of results).
+// Section PROMOTION: every mixed real/complex/int operator form (array or scalar on either side, compound forms, int arrays, `|`)
+// on operands full of signed zeros, exact cancellations and zero products, compared BIT FOR BIT with the field formula of types.h
+// evaluated by the harness on the promoted operands and with the same operator after an explicit promotion through the library
+// (oracle key C03:promotion-value; the cases also go to the model as one-statement `prog` lines).
 // Further CORR tags: `sc` (the cmplx_t scalar operators of types.h, incl. real-on-the-left forms),
 // `zpad`, `concat` (utils.h), `mcplx mre mim mconj mcast` (lib/math.cpp).
 #include "common.hpp"
@@ -1425,6 +1429,369 @@ static int big_len(vh::Rng& rng) {   // log-uniform in 65 .. 10000
     return std::min(10000, std::max(65, n));
 }
 
+// ------------------------------------------------------------------ PROMOTION of the real / int operand in mixed operator forms
+// Clause "real-with-complex promoting to complex under the usual field formulas", over a value domain that contains -0, exact
+// cancellations and zero products. The tolerance-based interpreter above cannot tell -0 from +0 (and is blind wherever the result
+// is an exact zero), so here the FORMULA is pinned, bit for bit (sign of zero included, NaN = NaN), for every mixed operator form:
+//   (a) against the harness's own evaluation, in double arithmetic, of the formula the form stands for, written out below exactly
+//       as include/dsplib/types.h defines it: FULL = `cmplx_t op cmplx_t` on the PROMOTED operands (x -> (x, +0), int n -> (double(n), +0));
+//       MIXED = `cmplx_t op real_t` (complex operand on the left, real operand on the right: the dedicated mixed operators, as
+//       std::complex has them); REAL = `double op double` after int -> real_t;
+//   (b) against an independent path through the library: the same operator applied after an EXPLICIT promotion of the real / int
+//       operand (`complex(arr)`, `cmplx_t{x, 0}`, `arr_real(arr_int)`, `real_t(n)`): bit-identical for FULL / REAL forms; for MIXED
+//       forms the promoted path is a different (also usual) formula, equal as a VALUE for + - * (it may differ in the sign of a zero:
+//       counted in the statistics `promo_mixed_zero_sign_differs_*`) and within 4 eps for / (inside the claimed magnitude range).
+// Which class a form belongs to is the overload resolution of array.h / types.h on the unchanged tree:
+//   real array  op complex scalar / complex array, real or int scalar op complex array, int array op complex      -> FULL
+//   complex scalar + - * real (int) array                                                                        -> FULL (the - loop `R(lhs) - rhs[i]`
+//                                                           is cmplx_t - real_t = (re - x, im), bit-identical to (re - x, im - 0))
+//   complex array op real / int array or scalar (also compound), complex scalar / real (int) array                -> MIXED
+//   real / int array with real / int scalar or array                                                             -> REAL
+// Every case with a token-language counterpart is also sent to the Lean model (CORR tag `prog`, one statement).
+namespace promo {
+enum Cls { FULL = 0, MIXED, REAL };
+static const char* CLSN[3] = {"cmplx_t op cmplx_t on the promoted operands", "cmplx_t op real_t", "real_t op real_t"};
+struct Opd { bool cx; double re, im; };
+struct Src {   // one operand of a form: an array (element i) or a scalar (broadcast)
+    const arr_real* r = nullptr; const arr_cmplx* c = nullptr; const arr_int* n = nullptr;
+    Opd s{false, 0.0, 0.0};
+    Opd at(int i) const {
+        if (r) return {false, (*r)[i], 0.0};
+        if (c) return {true, (*c)[i].re, (*c)[i].im};
+        if (n) return {false, double((*n)[i]), 0.0};
+        return s;
+    }
+};
+static Src A(const arr_real& a) { Src s; s.r = &a; return s; }
+static Src A(const arr_cmplx& a) { Src s; s.c = &a; return s; }
+static Src A(const arr_int& a) { Src s; s.n = &a; return s; }
+static Src KR(real_t x) { Src s; s.s = {false, x, 0.0}; return s; }
+static Src KI(int k) { Src s; s.s = {false, double(k), 0.0}; return s; }
+static Src KC(const cmplx_t& z) { Src s; s.s = {true, z.re, z.im}; return s; }
+
+// ---- the formulas of include/dsplib/types.h, written out (the property fixes the formula, not merely the real value)
+// cmplx_t::operator+,-,*,/(const cmplx_t&):  {re + r.re, im + r.im}   {re - r.re, im - r.im}
+//   {(re * r.re) - (im * r.im), (re * r.im) + (im * r.re)}
+//   {((re * r.re) + (im * r.im)) / r.abs2(), ((r.re * im) - (re * r.im)) / r.abs2()},  abs2 = re * re + im * im
+static void f_cc(int op, double ar, double ai, double br, double bi, double& re, double& im) {
+    switch (op) {
+    case ADD: re = ar + br; im = ai + bi; break;
+    case SUB: re = ar - br; im = ai - bi; break;
+    case MUL: re = (ar * br) - (ai * bi); im = (ar * bi) + (ai * br); break;
+    default: { const double n2 = br * br + bi * bi; re = ((ar * br) + (ai * bi)) / n2; im = ((br * ai) - (ar * bi)) / n2; }
+    }
+}
+// cmplx_t::operator+,-,*,/(const real_t&):  {re + x, im}  {re - x, im}  {re * x, im * x}  {re / x, im / x}
+static void f_cr(int op, double ar, double ai, double x, double& re, double& im) {
+    switch (op) {
+    case ADD: re = ar + x; im = ai; break;
+    case SUB: re = ar - x; im = ai; break;
+    case MUL: re = ar * x; im = ai * x; break;
+    default: re = ar / x; im = ai / x;
+    }
+}
+static double f_rr(int op, double x, double y) {
+    switch (op) { case ADD: return x + y; case SUB: return x - y; case MUL: return x * y; default: return x / y; }
+}
+static bool sameD(double a, double b) { return same_word(bitsof(a), bitsof(b)); }
+static std::string pv(bool cx, double re, double im) {
+    char b[160];
+    if (cx) std::snprintf(b, sizeof b, "(%.17g,%.17g) [%016llx %016llx]", re, im, (unsigned long long)bitsof(re), (unsigned long long)bitsof(im));
+    else std::snprintf(b, sizeof b, "%.17g [%016llx]", re, (unsigned long long)bitsof(re));
+    return b;
+}
+static bool claimed(double d) { const double m = std::fabs(d); return m == 0 || (m >= 0.99e-100 && m <= 1.01e100); }
+
+struct Round {
+    const arr_real& xr; const arr_cmplx& zc;
+    int L; long long id; bool emit; const char* gen;
+};
+template<class X> static double cre(const X& v) { if constexpr (std::is_same_v<X, cmplx_t>) return v.re; else return v; }
+template<class X> static double cim(const X& v) { if constexpr (std::is_same_v<X, cmplx_t>) return v.im; else return 0.0; }
+
+// got: the mixed operator form; via: the same operator after an explicit promotion of the real / int operand (library path)
+template<class G, class V>
+static void judge(const Round& R, const char* form, const std::string& expr, int op, Cls cls, const Src& a, const Src& b, const G& got, const V& via,
+                  const std::string& via_text, const std::string& stmt, int target = -1) {
+    constexpr bool gcx = std::is_same_v<G, arr_cmplx>;
+    constexpr bool vcx = std::is_same_v<V, arr_cmplx>;
+    out.n_oracle++;
+    out.stat(std::string("promo_form_") + form);
+    out.stat("promo_cases");
+    auto witness = [&](const std::string& what, int i, const std::string& extra) {
+        std::string j = "{\"what\":\"" + what + "\",\"form\":\"" + form + "\",\"expr\":\"" + expr + "\",\"op\":\"" + OPN[op] + "\",\"formula\":\"" + CLSN[cls] + "\"";
+        if (i >= 0) {
+            const Opd x = a.at(i), y = b.at(i);
+            j += ",\"elem\":" + std::to_string(i) + ",\"lhs\":\"" + pv(x.cx, x.re, x.im) + "\",\"rhs\":\"" + pv(y.cx, y.re, y.im) + "\"";
+        }
+        j += extra + ",\"L\":" + std::to_string(R.L) + ",\"generator\":\"" + R.gen + "\",\"round\":" + std::to_string(R.id) + ",\"seed\":" + std::to_string((unsigned long long)g_seed) + "}";
+        return j;
+    };
+    if (gcx != (cls != REAL)) { out.fail("C03:result-kind", witness("mixed form: result element type", -1, "")); return; }
+    if (got.size() != R.L) { out.fail("C03:result-length", witness("mixed form: result length " + std::to_string(got.size()), -1, "")); return; }
+    // (a) the field formula on the promoted operands, evaluated here in double arithmetic
+    for (int i = 0; i < R.L; ++i) {
+        const Opd x = a.at(i), y = b.at(i);
+        double wr = 0, wi = 0;
+        if (cls == FULL) f_cc(op, x.re, x.cx ? x.im : 0.0, y.re, y.cx ? y.im : 0.0, wr, wi);
+        else if (cls == MIXED) f_cr(op, x.re, x.im, y.re, wr, wi);
+        else wr = f_rr(op, x.re, y.re);
+        const double gr = cre(got[i]), gi = cim(got[i]);
+        if (gr == 0) out.stat("promo_zero_components");
+        if (gcx && gi == 0) out.stat("promo_zero_components");
+        if (!sameD(gr, wr) || (gcx && !sameD(gi, wi))) {
+            out.fail("C03:promotion-value", witness("the result is not bit-identical (sign of zero included) to the field formula evaluated on the promoted operands", i,
+                                                    ",\"got\":\"" + pv(gcx, gr, gi) + "\",\"want\":\"" + pv(gcx, wr, wi) + "\""));
+            return;
+        }
+    }
+    out.stat("promo_elements", R.L);
+    // (b) the same operator after an explicit promotion of the real / int operand: an independent path through the library
+    if (via.size() != R.L) { out.fail("C03:promotion-value", witness("explicitly promoted path " + via_text + ": length " + std::to_string(via.size()), -1, "")); return; }
+    for (int i = 0; i < R.L; ++i) {
+        const double gr = cre(got[i]), gi = cim(got[i]), vr = cre(via[i]), vi = cim(via[i]);
+        bool good;
+        if (cls != MIXED) good = (gcx == vcx) && sameD(gr, vr) && sameD(gi, vi);
+        else {
+            const Opd x = a.at(i), y = b.at(i);
+            if (op != DIV) {
+                good = (gr == vr || (std::isnan(gr) && std::isnan(vr))) && (gi == vi || (std::isnan(gi) && std::isnan(vi)));
+                if (good && (!sameD(gr, vr) || !sameD(gi, vi))) out.stat(std::string("promo_mixed_zero_sign_differs_") + OPN[op]);
+            } else if (y.re != 0 && claimed(x.re) && claimed(x.im) && claimed(y.re)) {
+                const double t = 4 * DBL_EPSILON;
+                good = std::fabs(gr - vr) <= t * std::fabs(gr) && std::fabs(gi - vi) <= t * std::fabs(gi);
+                if (good && (!sameD(gr, vr) || !sameD(gi, vi))) out.stat("promo_mixed_div_rounding_or_sign_differs");
+            } else { good = true; out.stat("promo_mixed_div_unclaimed"); }
+        }
+        if (!good) {
+            out.fail("C03:promotion-value", witness(std::string("the mixed form disagrees with the same operator applied after an explicit promotion of the real operand, ") + via_text +
+                                                        (cls == MIXED ? " (as a value)" : " (bit for bit, sign of zero included)"), i,
+                                                    ",\"got\":\"" + pv(gcx, gr, gi) + "\",\"promoted_path\":\"" + pv(vcx, vr, vi) + "\""));
+            return;
+        }
+    }
+    if (R.emit && !stmt.empty()) {
+        const RV g = refv(got), x = refv(R.xr), z = refv(R.zc);
+        out.corr("prog 2 " + showv(x) + " " + showv(z) + " 1" + stmt, showvz(g) + " ENV " + showvz(target == 0 ? g : x) + " " + showvz(target == 1 ? g : z));
+        out.stat("promo_corr_cases");
+    }
+}
+template<class X, class Y> static auto bop(int op, const X& a, const Y& b) -> decltype(a * b) {
+    switch (op) { case ADD: return a + b; case SUB: return a - b; case MUL: return a * b; default: return a / b; }
+}
+template<class X, class Y> static X cop(int op, X t, const Y& b) {   // t is a copy: `t op= b`
+    switch (op) { case ADD: t += b; break; case SUB: t -= b; break; case MUL: t *= b; break; default: t /= b; }
+    return t;
+}
+// pure element moves with promotion: `real | complex`, `complex | real`, `complex |= real`
+static void judge_cat(const Round& R, const char* form, const arr_cmplx& got, const arr_cmplx& via, bool real_first, const std::string& stmt, int target = -1) {
+    out.n_oracle++;
+    out.stat(std::string("promo_form_") + form);
+    out.stat("promo_cases");
+    bool good = got.size() == 2 * R.L && via.size() == 2 * R.L;
+    for (int i = 0; good && i < 2 * R.L; ++i) {
+        const bool fromreal = real_first ? i < R.L : i >= R.L;
+        const int k = i < R.L ? i : i - R.L;
+        const double wr = fromreal ? R.xr[k] : R.zc[k].re, wi = fromreal ? 0.0 : R.zc[k].im;
+        good = sameD(got[i].re, wr) && sameD(got[i].im, wi) && sameD(via[i].re, wr) && sameD(via[i].im, wi);
+        if (!good) out.fail("C03:promotion-value", std::string("{\"what\":\"concatenation of a real with a complex array: element is not the promoted (x, +0) / the complex element, bit for bit\",\"form\":\"") + form +
+                                                       "\",\"elem\":" + std::to_string(i) + ",\"got\":\"" + pv(true, got[i].re, got[i].im) + "\",\"promoted_path\":\"" + pv(true, via[i].re, via[i].im) + "\",\"want\":\"" + pv(true, wr, wi) +
+                                                       "\",\"L\":" + std::to_string(R.L) + ",\"generator\":\"" + R.gen + "\",\"round\":" + std::to_string(R.id) + ",\"seed\":" + std::to_string((unsigned long long)g_seed) + "}");
+    }
+    if (!good && (got.size() != 2 * R.L || via.size() != 2 * R.L)) out.fail("C03:result-length", std::string("{\"what\":\"concatenation real/complex\",\"form\":\"") + form + "\"}");
+    if (good && R.emit) {
+        const RV g = refv(got), x = refv(R.xr), z = refv(R.zc);
+        out.corr("prog 2 " + showv(x) + " " + showv(z) + " 1" + stmt, showvz(g) + " ENV " + showvz(x) + " " + showvz(target == 1 ? g : z));
+        out.stat("promo_corr_cases");
+    }
+}
+
+// all mixed forms on one set of operands: xr (real), zc (complex), ni (int) of equal length, complex scalar s, real scalar x, int scalar n
+static void round_forms(const Round& R, const arr_int& ni, const cmplx_t& s, real_t x, int n) {
+    const arr_real& xr = R.xr;
+    const arr_cmplx& zc = R.zc;
+    const std::complex<double> sz(s.re, s.im);
+    char ctx[256];
+    std::snprintf(ctx, sizeof ctx, "{\"what\":\"promotion forms\",\"generator\":\"%s\",\"round\":%lld,\"L\":%d,\"seed\":%llu}", R.gen, R.id, R.L, (unsigned long long)g_seed);
+    vh::set_current("C03:crash", ctx);
+    vh::watch(120);
+    // ---- the explicit promotions themselves
+    const arr_cmplx pxr = complex(xr);       // math.cpp complex(arr_real) -> array_cast<cmplx_t>
+    const arr_real rni = arr_real(ni);       // converting constructor int -> real_t
+    const arr_cmplx pni = complex(rni);
+    const cmplx_t px{x, 0}, pn{real_t(n), 0};
+    const real_t rn = real_t(n);
+    {
+        out.n_oracle++;
+        bool good = pxr.size() == R.L && rni.size() == R.L && pni.size() == R.L && sameD(px.im, 0.0) && sameD(pn.im, 0.0) && sameD(pn.re, double(n));
+        for (int i = 0; good && i < R.L; ++i)
+            good = sameD(pxr[i].re, xr[i]) && sameD(pxr[i].im, 0.0) && sameD(rni[i], double(ni[i])) && sameD(pni[i].re, double(ni[i])) && sameD(pni[i].im, 0.0);
+        if (!good) out.fail("C03:promotion-value", std::string("{\"what\":\"explicit promotion complex(arr_real) / arr_real(arr_int) / cmplx_t{x, 0} is not (x, +0) bit for bit\",\"ctx\":") + ctx + "}");
+    }
+    const std::string tc = "c " + vh::hx(s.re) + " " + vh::hx(s.im), tz = "z " + vh::hx(s.re) + " " + vh::hx(s.im), tr = "r " + vh::hx(x), ti = "i " + std::to_string(n);
+    for (int op = 0; op < 4; ++op) {
+        const std::string o = OPN[op];
+        const Cls left_c = (op == DIV) ? MIXED : FULL;   // complex scalar on the left of a real / int array
+        // real array with a complex scalar (right, left), with a complex array
+        judge(R, "R_op_c", "xr op s", op, FULL, A(xr), KC(s), bop(op, xr, s), bop(op, pxr, s), "complex(xr) op s", " E as " + o + " " + tc + " v 0");
+        judge(R, "c_op_R", "s op xr", op, left_c, KC(s), A(xr), bop(op, s, xr), bop(op, s, pxr), "s op complex(xr)", " E sa " + o + " " + tc + " v 0");
+        judge(R, "R_op_C", "xr op zc", op, FULL, A(xr), A(zc), bop(op, xr, zc), bop(op, pxr, zc), "complex(xr) op zc", " E aa " + o + " v 0 v 1");
+        if (op == MUL) {
+            judge(R, "R_mul_z", "xr * std::complex", op, FULL, A(xr), KC(s), xr * sz, pxr * sz, "complex(xr) * std::complex", " E as mul " + tz + " v 0");
+            judge(R, "z_mul_R", "std::complex * xr", op, FULL, KC(s), A(xr), sz * xr, sz * pxr, "std::complex * complex(xr)", " E sa mul " + tz + " v 0");
+        }
+        // complex array with a real array / real scalar / int scalar on the right (the dedicated mixed operators), also compound
+        judge(R, "C_op_R", "zc op xr", op, MIXED, A(zc), A(xr), bop(op, zc, xr), bop(op, zc, pxr), "zc op complex(xr)", " E aa " + o + " v 1 v 0");
+        judge(R, "C_op_r", "zc op x", op, MIXED, A(zc), KR(x), bop(op, zc, x), bop(op, zc, px), "zc op cmplx_t{x, 0}", " E as " + o + " " + tr + " v 1");
+        judge(R, "C_op_i", "zc op n", op, MIXED, A(zc), KI(n), bop(op, zc, n), bop(op, zc, pn), "zc op cmplx_t{n, 0}", " E as " + o + " " + ti + " v 1");
+        judge(R, "C_ca_R", "zc op= xr", op, MIXED, A(zc), A(xr), cop(op, zc, xr), bop(op, zc, pxr), "zc op complex(xr)", " CA " + o + " 1 v 0", 1);
+        judge(R, "C_cs_r", "zc op= x", op, MIXED, A(zc), KR(x), cop(op, zc, x), bop(op, zc, px), "zc op cmplx_t{x, 0}", " CS " + o + " 1 " + tr, 1);
+        judge(R, "C_cs_i", "zc op= n", op, MIXED, A(zc), KI(n), cop(op, zc, n), bop(op, zc, pn), "zc op cmplx_t{n, 0}", " CS " + o + " 1 " + ti, 1);
+        // real / int scalar on the left of a complex array
+        judge(R, "r_op_C", "x op zc", op, FULL, KR(x), A(zc), bop(op, x, zc), bop(op, px, zc), "cmplx_t{x, 0} op zc", " E sa " + o + " " + tr + " v 1");
+        judge(R, "i_op_C", "n op zc", op, FULL, KI(n), A(zc), bop(op, n, zc), bop(op, pn, zc), "cmplx_t{n, 0} op zc", " E sa " + o + " " + ti + " v 1");
+        // int scalar with a real array
+        judge(R, "R_op_i", "xr op n", op, REAL, A(xr), KI(n), bop(op, xr, n), bop(op, xr, rn), "xr op real_t(n)", " E as " + o + " " + ti + " v 0");
+        judge(R, "i_op_R", "n op xr", op, REAL, KI(n), A(xr), bop(op, n, xr), bop(op, rn, xr), "real_t(n) op xr", " E sa " + o + " " + ti + " v 0");
+        judge(R, "R_cs_i", "xr op= n", op, REAL, A(xr), KI(n), cop(op, xr, n), bop(op, xr, rn), "xr op real_t(n)", " CS " + o + " 0 " + ti, 0);
+        // complex with complex (cmplx_t, std::complex converted field by field): the written-out formula against the library
+        judge(R, "C_op_c", "zc op s", op, FULL, A(zc), KC(s), bop(op, zc, s), cop(op, zc, s), "zc op= s", " E as " + o + " " + tc + " v 1");
+        judge(R, "c_op_C", "s op zc", op, FULL, KC(s), A(zc), bop(op, s, zc), bop(op, sz, zc), "std::complex op zc", " E sa " + o + " " + tc + " v 1");
+        judge(R, "C_op_z", "zc op std::complex", op, FULL, A(zc), KC(s), bop(op, zc, sz), bop(op, zc, s), "zc op cmplx_t(std::complex)", " E as " + o + " " + tz + " v 1");
+        judge(R, "z_op_C", "std::complex op zc", op, FULL, KC(s), A(zc), bop(op, sz, zc), bop(op, s, zc), "cmplx_t(std::complex) op zc", " E sa " + o + " " + tz + " v 1");
+        judge(R, "C_cs_z", "zc op= std::complex", op, FULL, A(zc), KC(s), cop(op, zc, sz), bop(op, zc, s), "zc op cmplx_t(std::complex)", " CS " + o + " 1 " + tz, 1);
+        // int arrays meeting real / complex operands (no token-language counterpart: oracle only)
+        judge(R, "I_op_R", "ni op xr", op, REAL, A(ni), A(xr), bop(op, ni, xr), bop(op, rni, xr), "arr_real(ni) op xr", "");
+        judge(R, "R_op_I", "xr op ni", op, REAL, A(xr), A(ni), bop(op, xr, ni), bop(op, xr, rni), "xr op arr_real(ni)", "");
+        judge(R, "R_ca_I", "xr op= ni", op, REAL, A(xr), A(ni), cop(op, xr, ni), bop(op, xr, rni), "xr op arr_real(ni)", "");
+        judge(R, "I_op_I", "ni op ni", op, REAL, A(ni), A(ni), bop(op, ni, ni), bop(op, rni, rni), "arr_real(ni) op arr_real(ni)", "");
+        judge(R, "I_op_r", "ni op x", op, REAL, A(ni), KR(x), bop(op, ni, x), bop(op, rni, x), "arr_real(ni) op x", "");
+        judge(R, "r_op_I", "x op ni", op, REAL, KR(x), A(ni), bop(op, x, ni), bop(op, x, rni), "x op arr_real(ni)", "");
+        judge(R, "I_op_i", "ni op n", op, REAL, A(ni), KI(n), bop(op, ni, n), bop(op, rni, rn), "arr_real(ni) op real_t(n)", "");
+        judge(R, "i_op_I", "n op ni", op, REAL, KI(n), A(ni), bop(op, n, ni), bop(op, rn, rni), "real_t(n) op arr_real(ni)", "");
+        judge(R, "I_op_C", "ni op zc", op, FULL, A(ni), A(zc), bop(op, ni, zc), bop(op, pni, zc), "complex(arr_real(ni)) op zc", "");
+        judge(R, "I_op_c", "ni op s", op, FULL, A(ni), KC(s), bop(op, ni, s), bop(op, pni, s), "complex(arr_real(ni)) op s", "");
+        judge(R, "c_op_I", "s op ni", op, left_c, KC(s), A(ni), bop(op, s, ni), bop(op, s, pni), "s op complex(arr_real(ni))", "");
+        judge(R, "C_op_I", "zc op ni", op, MIXED, A(zc), A(ni), bop(op, zc, ni), bop(op, zc, pni), "zc op complex(arr_real(ni))", "");
+        judge(R, "C_ca_I", "zc op= ni", op, MIXED, A(zc), A(ni), cop(op, zc, ni), bop(op, zc, pni), "zc op complex(arr_real(ni))", "");
+    }
+    {
+        judge_cat(R, "R_cat_C", xr | zc, pxr | zc, true, " E cat v 0 v 1");
+        judge_cat(R, "C_cat_R", zc | xr, zc | pxr, false, " E cat v 1 v 0");
+        arr_cmplx t = zc; t |= xr;
+        judge_cat(R, "C_cata_R", t, zc | pxr, false, " CATA 1 v 0", 1);
+    }
+    // operands untouched by all of the above
+    vh::unwatch();
+    vh::clear_current();
+}
+
+static const double PAL[8] = {0.0, -0.0, 1.0, -1.0, 2.0, -3.0, 0.5, 5.0};
+static const int IPAL[8] = {0, 1, -1, 2, -3, 5, INT_MAX, -1000003};
+
+struct PG {
+    vh::Rng& rng;
+    Gen g;
+    explicit PG(vh::Rng& r) : rng(r), g{r} {}
+    double zero() { return rng.coin() ? 0.0 : -0.0; }
+    double pick(double r1, double r2) {   // a component correlated with two reference values: exact cancellations, equal operands, signed zeros
+        switch (int(rng.next() % 20)) {
+        case 0: case 1: return 0.0;
+        case 2: case 3: return -0.0;
+        case 4: case 5: return r1;
+        case 6: return -r1;
+        case 7: return r2;
+        case 8: return -r2;
+        case 9: return 1.0;
+        case 10: return -1.0;
+        case 11: return double(rng.range(-9, 9));
+        default: return g.value();
+        }
+    }
+    cmplx_t scalar() {
+        const double v = g.value(), w = g.value();
+        switch (int(rng.next() % 12)) {
+        case 0: case 1: return cmplx_t(v, zero());                       // purely real
+        case 2: return cmplx_t(zero(), v);                               // purely imaginary
+        case 3: return cmplx_t(zero(), zero());
+        case 4: return cmplx_t(rng.coin() ? 1.0 : -1.0, zero());
+        case 5: return cmplx_t(zero(), rng.coin() ? 1.0 : -1.0);
+        case 6: return cmplx_t(v, v);
+        case 7: return cmplx_t(v, -v);
+        case 8: return cmplx_t(double(rng.range(-5, 5)), double(rng.range(-5, 5)));
+        default: return cmplx_t(v, w);
+        }
+    }
+    int integer(double near) {
+        switch (int(rng.next() % 8)) {
+        case 0: return IPAL[rng.next() % 8];
+        case 1: return INT_MIN;
+        case 2: case 3: return (std::fabs(near) < 1e6 && near == std::floor(near)) ? int(near) : rng.range(-6, 6);
+        case 4: return 0;
+        default: return rng.range(-9, 9);
+        }
+    }
+};
+static void random_round(PG& pg, int L, int mode, long long id, bool emit) {
+    pg.g.mode = mode;
+    const cmplx_t s = pg.scalar();
+    arr_real xr(L);
+    arr_cmplx zc(L);
+    arr_int ni(L);
+    const int style = int(pg.rng.next() % 8);   // 0: all elements equal, 1: real-valued complex array, 2: purely imaginary complex array
+    const double x0 = pg.pick(s.re, s.im);
+    const cmplx_t z0(pg.pick(x0, s.re), pg.pick(x0, s.im));
+    const int n0 = pg.integer(s.re);
+    for (int i = 0; i < L; ++i) {
+        xr[i] = style == 0 ? x0 : pg.pick(s.re, s.im);
+        zc[i] = style == 0 ? z0 : cmplx_t(style == 2 ? pg.zero() : pg.pick(xr[i], s.re), style == 1 ? pg.zero() : pg.pick(xr[i], s.im));
+        ni[i] = style == 0 ? n0 : pg.integer(pg.rng.coin() ? xr[i] : s.re);
+    }
+    const real_t x = pg.pick(L ? zc[0].re : s.re, s.re);
+    const int n = pg.integer(L ? zc[L - 1].re : s.re);
+    const Round R{xr, zc, L, id, emit, mode ? "random-wide" : "random"};
+    const auto sx = bits(refv(xr)), sz = bits(refv(zc));
+    const std::vector<int> sn = ni.to_vec();
+    round_forms(R, ni, s, x, n);
+    if (bits(refv(xr)) != sx || bits(refv(zc)) != sz || ni.to_vec() != sn) out.fail("C03:operand-modified", "{\"what\":\"promotion forms: an operand changed\",\"round\":" + std::to_string(id) + "}");
+    out.stat(mode ? "promo_rounds_random_wide" : "promo_rounds_random");
+}
+// deterministic sweep: every element / scalar-component combination of the palette {+0, -0, 1, -1, 2, -3, 0.5, 5}
+static void grid(bool full, bool emit, long long& id) {
+    const int L = full ? 512 : 8;
+    for (int k = 0; k < 64; ++k) {
+        const cmplx_t s(PAL[k % 8], PAL[k / 8]);
+        arr_real xr(L);
+        arr_cmplx zc(L);
+        arr_int ni(L);
+        for (int i = 0; i < L; ++i) {
+            xr[i] = PAL[i % 8];
+            zc[i] = full ? cmplx_t(PAL[(i / 8) % 8], PAL[i / 64]) : cmplx_t(PAL[(i + k) % 8], PAL[(i + k / 8) % 8]);
+            ni[i] = IPAL[(i + (full ? i / 8 : k)) % 8];
+        }
+        const Round R{xr, zc, L, id++, emit, full ? "grid-512" : "grid-8"};
+        round_forms(R, ni, s, PAL[(k + k / 8) % 8], IPAL[(k / 8 + 3 * (k % 8)) % 8]);
+        out.stat(full ? "promo_rounds_grid_512" : "promo_rounds_grid_8");
+    }
+}
+static void run(vh::Rng& rng, bool thorough) {
+    long long id = 0;
+    grid(false, true, id);
+    grid(true, false, id);
+    PG pg(rng);
+    const int rounds = thorough ? 6000 : 400, emitN = thorough ? 160 : 40;
+    for (int r = 0; r < rounds; ++r) {
+        const bool emit = r < emitN;
+        const int L = emit ? rng.range(0, 12) : (r % 5 == 0 ? rng.range(0, 3) : rng.range(0, 64));
+        random_round(pg, L, (r % 4 == 3) ? 1 : 0, id++, emit);
+    }
+    // longer arrays; thorough: also single frames above 2^16 / 2^17 elements
+    const int nbig = thorough ? 12 : 2;
+    for (int r = 0; r < nbig; ++r) random_round(pg, big_len(rng), r % 2, id++, false);
+    if (thorough) for (int L : {65537, 131073}) random_round(pg, L, 0, id++, false);
+}
+}   // namespace promo
+
 int main(int argc, char** argv) {
     vh::Args a(argc, argv);
     vh::install_guards();
@@ -1496,6 +1863,10 @@ int main(int argc, char** argv) {
         }
     }
     lap("scalars_builders");
+    // mixed real/complex (and int) operator forms: the formula on the promoted operands, bit for bit (placed last: the random
+    // streams of the sections above are unchanged)
+    promo::run(rng, a.thorough);
+    lap("promotion");
     out.stats["elements_claimed"] = g_claimed;
     out.stats["elements_outside_claimed_range"] = g_unclaimed;
     out.stats["worst_error_over_bound_ppm"] = (long long)(g_worst * 1e6L);
